@@ -189,17 +189,20 @@ fn c12_srchash_t() {
     srchash_kernel::<5>();
 }
 
+/// URL tokenisation does not feed the classification; it is cut so that the URL can be 8..10 symbolic bytes
+pub fn stub_tokenize_pooled(_pattern: &str, _tokens_buffer: &mut Vec<utils::Hash>) {}
+
 #[kani::proof]
-#[kani::unwind(8)]
-#[kani::stub(crate::utils::fast_hash, stub_fast_hash_plain)]
+#[kani::unwind(14)]
+#[kani::stub(crate::utils::tokenize_pooled, stub_tokenize_pooled)]
 fn c12_presplit() {
-    presplit_kernel::<3>();
+    presplit_kernel::<10>();
 }
 #[kani::proof]
-#[kani::unwind(8)]
-#[kani::stub(crate::utils::fast_hash, stub_fast_hash_plain)]
+#[kani::unwind(20)]
+#[kani::stub(crate::utils::tokenize_pooled, stub_tokenize_pooled)]
 fn c12_presplit_t() {
-    presplit_kernel::<4>();
+    presplit_kernel::<16>();
 }
 
 /// the scheme Request::preparsed derives from the URL text is the prefix before the first ':' (none: empty):
